@@ -221,8 +221,34 @@ def run(ctx):
                 a, b = (ref.get("out") or b""), (slow.get("out") or b"")
                 oracle_fail.append({"phase": "slow consumer", "why": "a client that starts reading 7 s late does not receive the complete output (%d of %d bytes, %d of %d lines)" % (len(b), len(a), b.count(b"\n"), a.count(b"\n")),
                                     "exit_prompt": ref.get("exit"), "exit_slow": slow.get("exit"), "error": slow.get("error"), "source": BULK})
+            # phase 1d: a session that made external calls has ended (its co-process was started and stopped); then one client hangs
+            # up in the middle of its program's output while a bystander session is being served: the bystander gets its standalone result
+            import threading
+            for rnd in range(2 if quick else 6):
+                if not d.alive():
+                    break
+                d.exec_blob(sm[0]["blob"])                       # the setter: two external calls
+                res_by = {}
+                def bystander():
+                    res_by["r"] = d.exec_blob(sm[2]["blob"], timeout=120.0)
+                tb = threading.Thread(target=bystander)
+                tb.start()
+                time.sleep(0.05 * rnd)
+                try:
+                    vmd.bad_client(d, "disconnect-during-output", sm[2]["blob"], random.Random(ctx.seed * 31 + rnd))
+                except Exception:
+                    pass
+                tb.join(150)
+                ctx.evals += 1
+                ctx.case("hang-up beside a bystander, round %d" % rnd)
+                rb = res_by.get("r") or {"error": "no result"}
+                if "error" in rb or rb.get("out") != ref.get("out") or not exit_eq(rb.get("exit"), 7):
+                    a, b = (ref.get("out") or b""), (rb.get("out") or b"")
+                    oracle_fail.append({"phase": "hang-up beside a bystander", "why": "a session served while another client hung up mid-output (after a session that made external calls) differs from its standalone result (%d of %d bytes)" % (len(b), len(a)),
+                                        "exit": rb.get("exit"), "error": rb.get("error"), "daemon_alive": d.alive(), "status": d.status(), "stderr": d.stderr_text()[-400:]})
+                    break
             if not d.alive():
-                oracle_fail.append({"phase": "process-wide state / slow consumer", "why": "daemon died", "status": d.status(), "stderr": d.stderr_text()[-600:]})
+                oracle_fail.append({"phase": "process-wide state / slow consumer / hang-up", "why": "daemon died", "status": d.status(), "stderr": d.stderr_text()[-600:]})
             d.stop()
         # model tie: reply frames predicted by `serve` from the standalone observation
         lines = []
